@@ -26,7 +26,7 @@ BOUNDS = {
 ASSUMPTIONS = ["station latitudes lie in [-90, 90] and longitudes in [-180, 180] (decimal degrees, as the Location docstring says)",
                "station ids are distinct integers", "-d values are valid YYYYMMDD dates", "-tod values are whole hours 0..23",
                "range options are given as [lo, hi] with lo <= hi"]
-STUBS = ["inputs are in-memory verif.input.Input subclasses"]
+STUBS = ["inputs are in-memory verif.input.Input subclasses", "driver_options: get_input / Data / output actions are recorders (see C13)"]
 
 
 def all_nan_scores(S, D):
@@ -222,9 +222,15 @@ def h_obsrange(T, L, P):
     return fn
 
 
+SUBSET_OPTIONS = ["-latrange", "-lonrange", "-elevrange", "-obsrange", "-l", "-lx", "-o", "-t", "-d", "-tod"]
+
+
 def harnesses(tier):
     thorough = tier == "thorough"
+    from harness import c13
     return [
+        Harness("driver_options", c13.h_dispatch(only=SUBSET_OPTIONS),
+                "each subsetting option reaches exactly its Data keyword, at any position (driver.run with recorders)"),
         Harness("locations", h_locations(3 if thorough else 2), "lat/lon/elev ranges, -l, -lx"),
         Harness("times", h_times(2 if thorough else 1), "-t, -d, -tod on symbolic init times"),
         Harness("leadtimes", h_leadtimes(3 if thorough else 2), "-o on symbolic lead times"),
